@@ -153,7 +153,7 @@ class OneCoreDisk(DiskBase):
     see docs/blocking for point numbers and faces/grid indexing."""
 
     chops: ClassVar = [
-        [0],  # axis 0
+        [1],  # axis 0: radial, on a shell face (the core's edges are covered by axis 1)
         [1, 2],  # axis 1
     ]
 
@@ -294,7 +294,7 @@ class WrappedDisk(DiskBase):
     making the sketch a square"""
 
     chops: ClassVar = [
-        [6],
+        [1, 6],  # radial: the inner ring and the outer (wrapping) quads
         [1, 2],
     ]
 
